@@ -282,6 +282,11 @@ impl LinkState {
                     self.trace.push(Ev::WErr { off, kind });
                     return Some(Err(io::Error::new(kind.to_io(), "injected")));
                 },
+                Some(WriteEv::Zero) => {
+                    // recorded like an injected error: the caller is expected to turn it into one
+                    self.trace.push(Ev::WErr { off, kind: ErrKind::WriteZero });
+                    return Some(Ok(0));
+                },
                 None => {
                     self.accept(off, buf);
                     return Some(Ok(off));
